@@ -10,17 +10,28 @@ import (
 	"strings"
 
 	chdrv "github.com/ClickHouse/clickhouse-go/v2/lib/driver"
+	"github.com/ClickHouse/clickhouse-go/v2/lib/proto"
 )
 
 // Fault kinds (DESIGN Appendix B).
 const (
-	Before   = "before"   // statement i has no effect; an error is returned
-	After    = "after"    // statement i takes effect; an error is returned; the process is dead: every later call fails
-	VerWrite = "verwrite" // the first version/marker INSERT issued after statement i fails without effect
-	Refused  = "refused"  // statement i has no effect and fails, and so does every repetition of the same statement text during this run (a statement the server keeps refusing until the next start)
+	Before   = "before"           // statement i has no effect; an error is returned
+	After    = "after"            // statement i takes effect; an error is returned; the process is dead: every later call fails
+	VerWrite = "verwrite"         // the first version/marker INSERT issued after statement i fails without effect
+	ServerEx = "server-exception" // statement i has no effect; the server answers with an exception of its own (a DDL task the initiator stopped waiting for, memory limit, keeper away, read-only replica) instead of the connection breaking
+	Refused  = "refused"          // statement i has no effect and fails, and so does every repetition of the same statement text during this run (a statement the server keeps refusing until the next start)
 )
 
-var Kinds = []string{Before, After, VerWrite, Refused}
+var Kinds = []string{Before, After, VerWrite, Refused, ServerEx}
+
+// serverExceptions: what a ClickHouse server says when it could not carry a statement out (texts as the server words them)
+var serverExceptions = []*proto.Exception{
+	{Code: 159, Name: "DB::Exception", Message: "Watching task /clickhouse/task_queue/ddl/query-0000000042 is executing longer than distributed_ddl_task_timeout (=180) seconds. There are 1 unfinished hosts (0 of them are currently active), they are going to execute the query in background"},
+	{Code: 241, Name: "DB::Exception", Message: "Memory limit (total) exceeded: would use 3.64 GiB (attempt to allocate chunk of 4194304 bytes), maximum: 3.60 GiB"},
+	{Code: 999, Name: "Coordination::Exception", Message: "Connection loss, path: /clickhouse/task_queue/ddl"},
+	{Code: 242, Name: "DB::Exception", Message: "Table is in readonly mode (replica path: /clickhouse/tables/01/x)"},
+	{Code: 159, Name: "DB::Exception", Message: "Timeout exceeded: elapsed 300.2 seconds, maximum: 300"},
+}
 
 // Fault is injected at statement index Index (0-based position in the connection's log).
 type Fault struct {
@@ -167,7 +178,7 @@ func (c *Conn) do(op, q string, args []any) *Entry {
 	kind := ""
 	if c.Fault != nil && c.Fault.Index == e.Index {
 		switch c.Fault.Kind {
-		case Before, After:
+		case Before, After, ServerEx:
 			kind = c.Fault.Kind
 		case Refused:
 			kind = Refused
@@ -180,6 +191,10 @@ func (c *Conn) do(op, q string, args []any) *Entry {
 	} else if c.armed && e.IsVersionWrite() {
 		kind = VerWrite
 		c.armed = false
+	}
+	if kind == ServerEx {
+		e.Injected, e.Err, c.Fired = kind, serverExceptions[e.Index%len(serverExceptions)], true
+		return e
 	}
 	if kind == Before || kind == VerWrite || kind == Refused {
 		e.Injected, e.Err, c.Fired = kind, ErrInjected, true
